@@ -11,7 +11,7 @@ use quiver_compiler::compiler::ModuleCache;
 use quiver_compiler::recorder::Recorder;
 use quiver_core::builtins::{BuiltinRegistry, core_modules};
 use quiver_core::program::Program;
-use quiver_core::types::NIL;
+use quiver_core::types::Type;
 use std::collections::HashMap;
 use std::sync::OnceLock;
 use tower_lsp::lsp_types::{Diagnostic, DocumentSymbol};
@@ -70,13 +70,15 @@ pub fn analyze(text: &str, index: &LineIndex, resolver: &dyn ModuleResolver) -> 
     let mut program = Program::new();
     let mut module_cache = ModuleCache::new();
     let mut recorder = Recorder::default();
+    // The document is given nil as its parameter (a type id, not the `NIL` tuple id).
+    let nil_type_id = program.register_type(Type::nil());
     let result = Compiler::compile(
         ast,
         &HashMap::new(),
         &mut module_cache,
         resolver,
         &mut program,
-        NIL,
+        nil_type_id,
         &process_types,
         builtins(),
         Some(&mut recorder),
